@@ -19,6 +19,7 @@ import Hts.Lemmas.CacheSum
 import Hts.Lemmas.CachedReaderVsC02
 import Hts.Lemmas.CachedReaderC02Sim
 import Hts.Lemmas.CachedReaderFifo
+import Hts.Lemmas.CacheHom
 namespace Hts.Props.C03
 open Hts.Model.Cache Hts.Spec.CacheContract Hts.Model.CachedReader
 
@@ -466,6 +467,142 @@ example : (match newReader fifoOps Cfg.repaired file3 with
     (some 0, some 0, none, [[⟨35, 1⟩, ⟨0, 0⟩]], some true) := by decide
 
 end Fifo
+
+/-! ### StatsRecorder around ANY cache (extension round 5)
+
+`StatsRecorder{Cache: c}` forwards `Get`/`Put`/`Peek` to `c` and updates five counters that no result depends on
+(bgzf/cache/cache.go: `StatsRecorder.Get/Put`; `Peek`, `Len`, `Cap`, `Resize`, `Drop` are the embedded cache's own).  So the
+reader behaves with `StatsRecorder(c)` exactly as with `c` — no contract, no invariant, no hypothesis on `c`, the code
+variant or the file is needed: `Hts.Lemmas.CacheHom` (`Hom`, `run_hom`) shows that every function of the reader model
+commutes with forgetting the counters. -/
+
+section Stats
+
+/-- forget the counters of every `StatsRecorder` in a history -/
+abbrev unwrapOps {σ : Type} (ops : List (Op (σ × Stats))) : List (Op σ) := ops.map (Op.mapC Prod.fst)
+
+/-- generic form: a cache kind that is another kind plus bookkeeping gives the same outputs and the same faults -/
+theorem hom_same_behaviour {σ τ : Type} (o' : CacheOps τ) (o : CacheOps σ) (π : τ → σ) (H : Hom o' o π) (cfg : Cfg)
+    (f : File) (ops : List (Op τ)) :
+    outputs cfg o' f ops = outputs cfg o f (ops.map (Op.mapC π)) := by
+  unfold outputs
+  rw [newReader_hom H (o := o) cfg f]
+  cases newReader o' cfg f with
+  | error e => rfl
+  | ok v =>
+    obtain ⟨r0, e⟩ := v
+    simp only [mapR_ok]
+    by_cases he : e = .none
+    · simp only [he, ne_eq, not_true_eq_false, if_false]
+      rw [run_hom H cfg f ops r0]
+      cases run cfg o' f r0 ops with
+      | error e => rfl
+      | ok w => obtain ⟨r1, outs⟩ := w; rfl
+    · simp only [ne_eq, he, not_false_eq_true, if_true]
+
+/-- **stats_recorder_same_behaviour**: for EVERY cache kind `o` (LRU, FIFO, Random, a sum of kinds, another
+StatsRecorder …), every code variant, every file and every history, the reader with `StatsRecorder(c)` objects returns
+exactly what the reader with the bare `c` objects returns on the same history (same bytes, error classes, LastChunks;
+same fault if a call does not return) -/
+theorem stats_recorder_same_behaviour {σ : Type} (o : CacheOps σ) (cfg : Cfg) (f : File)
+    (ops : List (Op (σ × Stats))) :
+    outputs cfg (recorderOps o) f ops = outputs cfg o f (unwrapOps ops) :=
+  hom_same_behaviour (recorderOps o) o Prod.fst (recorder_hom o) cfg f ops
+
+/-- … hence transparency of a cache kind (in the form of `cached_refines_uncached` / `fifo_repaired_transparent`, for
+whatever condition `ok` on histories it has been proved) carries over to its StatsRecorder -/
+theorem stats_recorder_preserves_transparency {σ : Type} (o : CacheOps σ) (cfg : Cfg) (f : File)
+    (ops : List (Op (σ × Stats)))
+    (inner : ∀ outs, outputs cfg o f (unwrapOps ops) = .ok outs →
+      outputs cfg o f ((unwrapOps ops).map Op.uncached) = .ok outs)
+    (outs : List Out) (hr : outputs cfg (recorderOps o) f ops = .ok outs) :
+    outputs cfg (recorderOps o) f (ops.map Op.uncached) = .ok outs := by
+  rw [stats_recorder_same_behaviour] at hr ⊢
+  unfold unwrapOps
+  rw [uncached_mapC]
+  exact inner outs hr
+
+theorem opOK_unwrap {σ : Type} (o : CacheOps σ) (wf : σ → Prop) (ops : List (Op (σ × Stats)))
+    (ok : ∀ op ∈ ops, OpOK (recorderOps o) (fun s => wf s.1) op) : ∀ op ∈ unwrapOps ops, OpOK o wf op := by
+  intro op hop
+  obtain ⟨op0, h1, h2⟩ := List.mem_map.1 hop
+  subst h2
+  have := ok op0 h1
+  cases op0 with
+  | setCache c h => cases c with
+    | none => trivial
+    | some c => exact this
+  | _ => trivial
+
+/-- **stats_fifo_repaired_transparent**: `StatsRecorder(FIFO)` caches of any capacity ≥ 1, attached, replaced, detached
+and re-attached at arbitrary points: every call returns what the uncached reader returns (code variants as in
+`fifo_repaired_transparent`) -/
+theorem stats_fifo_repaired_transparent (cfg : Cfg) (hcfg : cfg.noStale) (hlg : cfg.lentGuard = true) (f : File)
+    (hf : FileOK f) (ops : List (Op (LCache × Stats)))
+    (ok : ∀ op ∈ ops, OpOK (recorderOps fifoOps) (fun s => LCache.WF s.1) op) (outs : List Out)
+    (hr : outputs cfg (recorderOps fifoOps) f ops = .ok outs) :
+    outputs cfg (recorderOps fifoOps) f (ops.map Op.uncached) = .ok outs :=
+  stats_recorder_preserves_transparency fifoOps cfg f ops
+    (fun outs' h => fifo_repaired_transparent cfg hcfg hlg f hf _ (opOK_unwrap fifoOps LCache.WF ops ok) outs' h)
+    outs hr
+
+/-- … and a `StatsRecorder(FIFO)` run stops abnormally only when the uncached run stops in the same way -/
+theorem stats_fifo_repaired_faults_only_as_uncached (cfg : Cfg) (hcfg : cfg.noStale) (hlg : cfg.lentGuard = true)
+    (f : File) (hf : FileOK f) (ops : List (Op (LCache × Stats)))
+    (ok : ∀ op ∈ ops, OpOK (recorderOps fifoOps) (fun s => LCache.WF s.1) op) (e : Fault)
+    (hr : outputs cfg (recorderOps fifoOps) f ops = .error e) :
+    outputs cfg (recorderOps fifoOps) f (ops.map Op.uncached) = .error e := by
+  rw [stats_recorder_same_behaviour] at hr ⊢
+  unfold unwrapOps
+  rw [uncached_mapC]
+  exact fifo_repaired_faults_only_as_uncached cfg hcfg hlg f hf _ (opOK_unwrap fifoOps LCache.WF ops ok) e hr
+
+theorem stats_fifo_setCache_ok (n : Int) (hn : 1 ≤ n) (hints : List Int) :
+    OpOK (recorderOps fifoOps) (fun s => LCache.WF s.1) (.setCache (some (LCache.new n, {})) hints) :=
+  ⟨LCache.wf_new hn, rfl⟩
+
+/-- `recorder_transparent` (StatsRecorder over a contract cache, by the contract) is also an instance of the general
+lemma: here it is re-derived for LRU without `recorder_contract` -/
+theorem stats_lru_transparent (cfg : Cfg) (hcfg : cfg.noStale) (f : File) (hf : FileOK f)
+    (ops : List (Op (LCache × Stats))) (ok : ∀ op ∈ ops, OpOK (recorderOps lruOps) (fun s => LCache.WF s.1) op)
+    (outs : List Out) (hr : outputs cfg (recorderOps lruOps) f ops = .ok outs) :
+    outputs cfg (recorderOps lruOps) f (ops.map Op.uncached) = .ok outs :=
+  stats_recorder_preserves_transparency lruOps cfg f ops
+    (fun outs' h => lru_transparent cfg hcfg f hf _ (opOK_unwrap lruOps LCache.WF ops ok) outs' h) outs hr
+
+theorem stats_random_transparent (cfg : Cfg) (hcfg : cfg.noStale) (f : File) (hf : FileOK f)
+    (ops : List (Op (RCache × Stats))) (ok : ∀ op ∈ ops, OpOK (recorderOps randomOps) (fun s => RCache.WF s.1) op)
+    (outs : List Out) (hr : outputs cfg (recorderOps randomOps) f ops = .ok outs) :
+    outputs cfg (recorderOps randomOps) f (ops.map Op.uncached) = .ok outs :=
+  stats_recorder_preserves_transparency randomOps cfg f ops
+    (fun outs' h => random_transparent cfg hcfg f hf _ (opOK_unwrap randomOps RCache.WF ops ok) outs' h) outs hr
+
+/-- the re-attachment history of `fifo_reattach_witness` with a StatsRecorder around the FIFO -/
+def statsReattachHist : List (Op (LCache × Stats)) :=
+  [.setCache (some (LCache.new 4, {})) [], .read 8, .seek 0 0, .setCache none [], .seek 70 0, .reattach 0 [],
+    .seek 0 0, .read 2]
+
+/-- non-vacuity: the hypotheses of `stats_fifo_repaired_transparent` hold for it, forgetting the counters gives
+`reattachHist`, the run is `ok` with 8 answers equal to the uncached ones, and the counters really moved (the detached
+recorder saw 2 Gets, 1 miss, 2 Puts, both retained, before it was parked) -/
+example : (∀ op ∈ statsReattachHist, OpOK (recorderOps fifoOps) (fun s => LCache.WF s.1) op) ∧
+    unwrapOps statsReattachHist = reattachHist ∧
+    (bytesOf (outputs Cfg.repaired (recorderOps fifoOps) file3 statsReattachHist)).length = 8 ∧
+    bytesOf (outputs Cfg.repaired (recorderOps fifoOps) file3 statsReattachHist) =
+      bytesOf (outputs Cfg.repaired (recorderOps fifoOps) file3 (statsReattachHist.map Op.uncached)) := by
+  refine ⟨?_, rfl, by decide, by decide⟩
+  intro op hop
+  simp only [statsReattachHist, List.mem_cons, List.mem_nil_iff, or_false] at hop
+  rcases hop with h1 | h1 | h1 | h1 | h1 | h1 | h1 | h1 <;> subst h1 <;>
+    first | exact stats_fifo_setCache_ok 4 (by decide) [] | trivial
+
+example : (match newReader (recorderOps fifoOps) Cfg.repaired file3 with
+    | .ok (r, _) => (match run Cfg.repaired (recorderOps fifoOps) file3 r (statsReattachHist.take 4) with
+        | .ok (r', _) => r'.parked.map (fun s => (s.2.gets, s.2.misses, s.2.puts, s.2.retains))
+        | .error _ => [])
+    | .error _ => []) = [(2, 1, 2, 2)] := by decide
+
+end Stats
 
 /-! ### read-ahead with a cache (rd > 1): the recorded finding, pinned on an abstract transition system
 
